@@ -2,10 +2,12 @@
    case   = [fix_a, fix_b, fix_c, nquiet, [op, ...]]
    op     = [tag, args...]   names are lists of byte values, a rename mapping is [[k, v], ...]
    result = [[step, ...], [final per dataset], obs before the first reported step]
-   step   = [code, obs, [flags]]            code 0 = returned, else the exception code of Base/Res.v
+   step   = [code, obs, [flags], identobs]  code 0 = returned, else the exception code of Base/Res.v; the last flag is
+                                            the identity verdict (Spec/CatalogueIdentSpec.v), identobs = per dataset
+                                            [[name, place]...], place = [] (new object) or [dataset index, name]
    obs    = [[dsobs, dsobs], [handle status, ...]] *)
 From Coq Require Import ZArith List Bool.
-From EV Require Import Res Val Catalogue CatalogueSpec.
+From EV Require Import Res Val Catalogue CatalogueSpec CatalogueIdentSpec.
 Import ListNotations.
 Open Scope Z_scope.
 
@@ -66,7 +68,12 @@ Definition enc_df (d:dfobs) : val := VL [vlist (o_key d); vlist (o_nameattr d); 
 Definition enc_ds (d:dsobs) : val :=
   VL [VL (map enc_df (o_dfs d)); VL (map (fun e => VL [vlist (fst e); vlist2 (snd e)]) (o_file d))].
 Definition enc_obs (o:obs) : val := VL [VL (map enc_ds (o_ds o)); VL (map enc_h (o_handles o))].
-Definition enc_step (r:stepres) : val := VL [VZ (sr_code r); enc_obs (sr_obs r); VL (map vbool (sr_flags r))].
+Definition enc_place (p:place) : val := match p with None => VL [] | Some (j, k) => VL [VZ j; vlist k] end.
+Definition enc_ident (io:identobs) : val :=
+  VL (map (fun l => VL (map (fun e => VL [vlist (fst e); enc_place (snd e)]) l)) io).
+Definition enc_step (x:stepres * (identobs * bool)) : val :=
+  let (r, ib) := x in
+  VL [VZ (sr_code r); enc_obs (sr_obs r); VL (map vbool (sr_flags r ++ [snd ib])); enc_ident (fst ib)].
 Definition enc_fview (v:fview) : val :=
   VL (map (fun e => VL [vlist (fst e);
                         VL (map (fun x => match x with (n, t, dat) => VL [vlist n; VZ t; vlist dat] end) (snd e))]) v).
@@ -78,10 +85,13 @@ Definition entry_C15 (v:val) : val :=
   | VL [VZ fa; VZ fb; VZ fc; VZ nquiet; VL ops] =>
       match all_some (map dec_op ops) with
       | Some ops =>
-          let (tr, fv) := run_case (mkCfg (negb (fa =? 0)) (negb (fb =? 0)) (negb (fc =? 0))) ops in
+          let cf := mkCfg (negb (fa =? 0)) (negb (fb =? 0)) (negb (fc =? 0)) in
+          let (tr, fv) := run_case cf ops in
+          (* identity observation and verdict of every recorded step (the recording stops where run_trace stops) *)
+          let trz := combine tr (ident_trace cf ops init_state) in
           (* the steps of the case's fixed preamble are not reported unless the history stopped there *)
           let quiet := (Z.to_nat nquiet <? length tr)%nat in
-          let shown := if quiet then skipn (Z.to_nat nquiet) tr else tr in
+          let shown := if quiet then skipn (Z.to_nat nquiet) trz else trz in
           (* observation before the first reported step *)
           let start := if quiet then match nth_error tr (Z.to_nat nquiet - 1) with
                                      | Some r => if 0 <? nquiet then sr_obs r else observe init_state []
